@@ -10,6 +10,7 @@ import (
 )
 
 var verbose = false
+var outDir = ""
 
 func (w *World) notesOn() bool { return true }
 func (w *World) note(format string, a ...any) {
@@ -37,6 +38,7 @@ func main() {
 	verif := flag.String("verif", "/verif", "verification root")
 	flag.BoolVar(&verbose, "v", false, "verbose")
 	timeout := flag.Int("timeout", 10, "per-solver timeout in seconds")
+	flag.StringVar(&outDir, "out", "", "directory for evidence/, replays/, work/ (default: the verification root)")
 	flag.Parse()
 	args := flag.Args()
 	if len(args) == 0 {
